@@ -543,8 +543,15 @@ fn apply_single_macro(
             let end = tokens.len() - remaining.len();
 
             // Substitute macros inside macro arguments
+            // Macros that are currently being expanded stay disabled or a macro that passes itself as an argument never finishes
             let args = args.into_iter().try_fold(Vec::new(), |mut vec, arg| {
-                let subbed_text = apply_macros(arg, macro_defs, false, source_manager)?;
+                let subbed_text = apply_macros_internal(
+                    arg.to_vec(),
+                    macro_defs,
+                    macro_disabled,
+                    false,
+                    source_manager,
+                )?;
                 vec.push(subbed_text);
                 Ok(vec)
             })?;
